@@ -19,7 +19,7 @@ def run(tier, seed, limit=0):
     chk.run_mc("B_Bins", {"MaxV": 3 if tier == "quick" else 5}, workers=12, label="compact/intersect |= value sets")
     # mk_collection transcribed statement by statement: for every compacted range list and bin count the bins it builds are
     # Partition(Sorted(values), n) of Cov.tla, and no list is indexed out of range on the way
-    chk.run_mc("B_MkColl", {"MaxV": 6, "MaxR": 3, "MaxN": 4} if tier == "quick" else {"MaxV": 9, "MaxR": 4, "MaxN": 6}, workers=12,
+    chk.run_mc("B_MkColl", {"MaxV": 6, "MaxR": 3, "MaxN": 4} if tier == "quick" else {"MaxV": 9, "MaxR": 3, "MaxN": 6}, workers=12,
                label="mk_collection |= Partition")
     return chk.finish(LEVEL, "random bin specifications (explicit bins, arrays with/without count, unordered/adjacent disjoint ranges, "
                       "ignore/illegal sets, auto-bins with auto_bin_max, enum, iff, signed types) each sampled with every value of the "
